@@ -123,7 +123,10 @@ def main():
               "  agents of rounds 5/6 ended without output (tool limits); a round-7 retry gave C01-r7A (symmetric transcript",
               "  sorted by the first 4 message bytes only: wrong when the two messages share a 4-byte prefix) -> C01 runs",
               "  in which the two Symmetric ends' scalars are found by a birthday walk in the reference model so that their",
-              "  messages agree in the first or last k bytes but differ elsewhere.",
+              "  messages agree in the first or last k bytes but differ elsewhere. C16-r7A (a module-level work list behind a",
+              "  lock-free busy flag: needs two pre-emptions) was caught by the site-targeted schedule as it was; C16-r7B (a",
+              "  digest table keyed by length + first/last 32 bytes of large identities) -> families of look-alike large",
+              "  identities (same length, head and tail, different middle) in C16 and C02.",
               "* round-3 change C07-r3A (`_started` set only when start() succeeds, so a start() after a start() whose",
               "  entropy function raised returns the one and only message) was **not kept**: the statement bounds the",
               "  number of messages returned (at most one) and fixes the error only for calls after a message was",
